@@ -28,6 +28,12 @@ CLAIMED = {
     text='The real IAPWS97 routines are evaluated on dense grids and random states in every region and on both sides of every region boundary; oracles use only returned values (no coefficient is read): tsat/sat and b23t/b23p must invert each other, (d,u) must satisfy the Maxwell-type identity of a single potential by central differences, density must rise with pressure, viscosity must be positive (including exactly at the critical density/temperature), jumps across the 1-3 and 2-3 boundaries must stay within the IF97 consistency tolerances, the Clausius-Clapeyron relation must tie sat, cowat and supst together, and region() must equal an own transcription of the release definition away from the boundary curves. Exploration over sampled states; the largest residual of every identity is recorded in the evidence.',
     note='Trusted: the IF97 region definition and B23 equation as transcribed in vf/props/c14.py; finite-difference resolution (thresholds are 50-500x above the residuals observed on the unchanged tree). A coefficient change that leaves the formulation self-consistent and within boundary tolerances is not a violation of this property and is not detected here (C15 cross-checks against IFC-67).',
     design='DESIGN.md §3 C14'),
+
+ 'C15': dict(
+    technique='runtime cross-formulation differential (IFC-67 vs IAPWS-97) inside frozen envelopes + returned-value identities + bounds logic against an own transcription of the stated ranges',
+    text='The real t2thermo routines run over liquid, steam and saturation grids and random states; each result is compared online with the IAPWS97 routine at the same state inside envelopes frozen at about twice the largest inter-formulation difference observed on the unchanged tree, the single-potential identity and the Clausius-Clapeyron relation are evaluated on returned values, tsat must invert sat, the bounds flag must return None exactly outside the documented IFC-67 region 1/2 ranges (both sides of every limit), the two region classifiers must agree below 350 degC and above the critical temperature away from the boundary curves, and the separated steam fraction must stay in [0,1], be monotone over a 200-point enthalpy ladder and reach 0 and 1 at the ends, for one and two stages. Exploration over sampled states.',
+    note='Trusted: the envelopes (calibrated once on the unchanged tree, printed with the observed maxima in the evidence); own transcription of the documented ranges and of the IFC-67 L-function. Changes smaller than the envelope (e.g. 1e-4 relative in a coefficient) are below the resolution of the cross-check unless they break an identity.',
+    design='DESIGN.md §3 C15'),
 }
 
 def main():
